@@ -58,8 +58,11 @@ def _ctx(cfg, dev_index):
             if D.real_id(dev, k) == real_id:
                 return k
         return 0
-    return P.Ctx(dev_index, dev, cid_of, nm_of, cfg.phase_unit, cfg.phase_mod,
-                 cfg.sp_lookup(dev_index))
+    ctx = P.Ctx(dev_index, dev, cid_of, nm_of, cfg.phase_unit, cfg.phase_mod,
+                cfg.sp_lookup(dev_index))
+    if dev.get("intids"):
+        ctx.qids = D.reg_ids(dev)
+    return ctx
 
 
 def _replay_chunk(keys):
@@ -118,6 +121,8 @@ def _replay_chunk(keys):
             else:
                 proj = P.project(run.seq, ctx)
                 why = P.diff(proj, e[2], cfg.ptol, cfg.phase_mod, "s")
+                for pred, detail in P.check_readings(run.seq, proj):
+                    hookv.append((pred, pre, detail))
                 if not why and render and e[4] is not None:
                     for pred, detail in check_render(run.seq, e[4], proj):
                         hookv.append((pred, pre, detail))
